@@ -1,1 +1,2 @@
 pub mod values;
+pub mod graph;
